@@ -49,7 +49,7 @@ try:
     def demo_run():
         # File-list mode: the package's own *_test.go files do not compile (no generated mocks).
         d = os.path.join(wt, demo_dir)
-        files = sorted(f for f in os.listdir(d) if f.endswith(".go") and not f.endswith("_test.go"))
+        files = subprocess.run(["go", "list", "-f", '{{join .GoFiles " "}}', "."], cwd=d, env=env, capture_output=True, text=True).stdout.split()
         if re.search(r"^package \w+_test\s*$", text, re.M):
             files = []  # external test package: uses the exported API only
         cmd = ["go", "test", "-mod=mod", "-vet=off", "-count=1", "-run", run] + files + ["zz_seed_demo_test.go"]
